@@ -87,6 +87,8 @@ func jobsFor(prop, tier string) []*Job {
 		if prop == "C03" {
 			add(&Job{Name: "O6-concurrent-requests", Pkg: "ratelimit", Harness: "VerifC03Concurrent", Grid: 1e9, Params: p("t0span", 3), TimeoutS: 120,
 				Bounds: "two concurrent requests (amount 1) of one source at one instant, the second running to completion at any one lock boundary of the first; rate 1/s, burst 1..2, 0..burst tokens already spent (symbolic): admitted = min(2, burst-spent); native replay by barrier-released stress"})
+			add(&Job{Name: "O7-tracked-sources-within-capacity", Pkg: "internal/holsterv4/collections", Harness: "VerifC14Evict", Grid: 1e9, Params: p("capacity", 2, "t0span", 3), TimeoutS: 120,
+				Bounds: "the capacity clause of the statement rests on the TTL map that remembers the sources (C14's obligation, registered here too): map of capacity 2 filled through its API with symbolic ttls (1..20 s) at symbolic instants; renewing the ttl of a tracked key touches only that key and forgets nobody (what the limiter does on every request of a tracked source), and only a new key beyond the capacity forgets one entry"})
 			add(&Job{Name: "O4-update", Pkg: "ratelimit", Harness: "VerifC03Update", Params: p("tpt", 1), MapPermMax: 2, TimeoutS: 120, Inductive: true,
 				Bounds: "TokenBucketSet.Update from any set over periods {1s,1min} (each bucket present or not, arbitrary invariant-satisfying state, rate 1..1000 per period, burst <= 2^20) to any non-empty rate set over the same periods (each rate unchanged or changed, symbolic)"})
 			for sh := 0; sh < 4; sh++ {
@@ -226,6 +228,8 @@ func jobsFor(prop, tier string) []*Job {
 			add(&Job{Name: fmt.Sprintf("O4-meter-failure/pre=%d,k=%d", c[0], c[1]), Pkg: "roundrobin", Harness: "VerifC02History", Params: p("kind", 1, "k", c[1], "op0", 0, "pre", c[0], "mode", 2),
 				Bounds: fmt.Sprintf("through the rebalancer with a meter factory that fails at one symbolic step of %d administration calls (first call an upsert): a failed add reports an error and leaves the pool as it was", c[1])})
 		}
+		add(&Job{Name: "O5-administration-during-adjustment", Pkg: "roundrobin", Harness: "VerifC02AdminDuringAdjust", Grid: 1e9, TimeoutS: 60,
+			Bounds: "rebalancer over three servers, meters ready, timer expired, one outlier (symbolic): a request whose completion adjusts the weights is preempted at one scheduling point (mutex acquire/release of either balancer, the log sink) by one administration call (remove / re-weight / add, symbolic victim) run to completion: balancer and rebalancer agree, a removed server is gone and not selected in the next 8 selections, an added one is present"})
 	case "C10":
 		add(&Job{Name: "O3-converge/a=2,wmax=4", Pkg: "roundrobin", Harness: "VerifC10Converge", Params: p("a", 2, "wmax", 4), TimeoutS: 120,
 			Bounds: "two servers with configured weights 1..4 (symbolic), 2 adjustments with a symbolic outlier pattern, then 6 adjustments with equal ratings through the real adjustWeights (real gcd/normalisation): weights back in the configured proportions"})
